@@ -16,6 +16,7 @@ package snapshot
 //     observer filter callback); the reader count returns to zero; no panic.
 
 import (
+	"runtime"
 	"hash/fnv"
 	"bytes"
 	"errors"
@@ -661,6 +662,101 @@ func TestVerifC11(t *testing.T) {
 		rep.CountN("B:reaps-observed", int(reaps.Load()))
 		rep.CountN("B:explicit-reaps-succeeded", int(explicitReaps.Load()))
 	}
+	// ---- E: a stream opened at the hand-over between two reapers ---------------------------
+	// An explicit reap holds the write lock (W1) while the background reaper has been signalled
+	// and is parked in BeginWriteBlocking (W2). W1's release races with Open (retried until it
+	// succeeds). Whoever wins, the background reap must not run while that stream is open: the
+	// observer callback, which runs inside reap() under the write lock, looks for a registered
+	// stream whose `closed` flag is still false.
+	{
+		s := c11NewStore(t)
+		s.SetReadTimeout(0)
+		s.SetReapThreshold(1)
+		var registry sync.Map
+		var reapWithOpen, reaps atomic.Int64
+		obs := NewObserver(make(chan ReapObservation, 16), func(o *ReapObservation) bool {
+			reaps.Add(1)
+			if c11NR(s) > 0 { // we are inside reap(), i.e. under the write lock: nobody may hold a read lock
+				reapWithOpen.Add(1)
+			}
+			registry.Range(func(k, _ interface{}) bool {
+				if !k.(*LockingStreamer).closed.Is() {
+					reapWithOpen.Add(1)
+				}
+				return true
+			})
+			return false
+		})
+		s.RegisterObserver(obs)
+		rounds := vfScale(600, 20000)
+		firstBad := -1
+		for i := 0; i < rounds && reapWithOpen.Load() == 0; i++ {
+			got := false
+			for dl := time.Now().Add(20 * time.Second); time.Now().Before(dl); runtime.Gosched() {
+				if err := s.mrsw.BeginWrite("reap"); err == nil { // W1: an explicit reap in progress
+					got = true
+					break
+				}
+			}
+			if !got {
+				rep.Fail("lock-not-free-after-all-streams-closed", "the write lock could not be taken for 20 s between hand-over rounds", map[string]interface{}{"round": i})
+				break
+			}
+			before := reaps.Load()
+			s.signalReap() // W2: reapLoop wakes up and parks in BeginWriteBlocking
+			time.Sleep(time.Duration(150+r.Intn(200)) * time.Microsecond)
+			var go_, release atomic.Int32
+			var rd sync.WaitGroup
+			id := c11Newest(s)
+			for g := 0; g < 3; g++ { // several openers: one of them should reach the mutex before the parked reaper wakes
+				rd.Add(1)
+				go func() {
+					defer rd.Done()
+					id := id
+					for go_.Load() == 0 {
+					}
+					var rc io.ReadCloser
+					for dl := time.Now().Add(20 * time.Second); time.Now().Before(dl) && release.Load() == 0; {
+						if _, c, err := s.Open(id); err == nil { // Open's first action is the (non-blocking) BeginRead
+							rc = c
+							break
+						} else if !strings.Contains(err.Error(), "acquiring read lock") {
+							id = c11Newest(s)
+						}
+					}
+					if rc == nil {
+						return
+					}
+					registry.Store(rc.(*LockingStreamer), true)
+					for release.Load() == 0 {
+						runtime.Gosched()
+					}
+					rc.Close()
+				}()
+			}
+			go_.Store(1)
+			s.mrsw.EndWrite()
+			// give the background reap a moment: it either runs now (it won the race, or wrongly ran
+			// under the open stream) or is still waiting for the stream
+			for dl := time.Now().Add(1500 * time.Microsecond); time.Now().Before(dl) && reaps.Load() == before; runtime.Gosched() {
+			}
+			if reapWithOpen.Load() > 0 && firstBad < 0 {
+				firstBad = i
+			}
+			release.Store(1)
+			rd.Wait()
+		}
+		if reapWithOpen.Load() > 0 {
+			rep.Fail("reap-ran-while-stream-open", fmt.Sprintf("round %d: an explicit reap held the write lock, the background reaper was parked behind it; the explicit reap's release raced with Open; the background reap then ran while that Open held the read lock (reader count > 0 / stream open, sampled by the observer callback inside reap(), i.e. under the write lock)", firstBad),
+				map[string]interface{}{"round": firstBad, "scenario": "W1 := mrsw.BeginWrite(reap); signalReap() (reapLoop parks in BeginWriteBlocking); barrier{ W1 EndWrite | retry Open until ok }; observer inside reap() finds an open stream"})
+		}
+		s.DeregisterObserver(obs)
+		s.Close()
+		rep.Case("handover:open-vs-parked-reaper", true)
+		rep.CountN("E:handover-rounds", rounds)
+		rep.CountN("E:background-reaps-observed", int(reaps.Load()))
+	}
+
 	// ---- C: real idle timers ------------------------------------------------------------
 	// a consumer reads once some time after opening (so the first timer firing finds the
 	// stream not yet idle long enough and must re-arm), then stalls: the stream must be
